@@ -103,6 +103,8 @@ pub struct NetStats {
     pub snapshots_pushed: u64,
     pub snapshots_push_failed: u64,
     pub slow_link_msgs: u64,
+    /// AppendEntries requests that were in flight when their stream was reset and still reached the peer
+    pub delivered_after_break: u64,
 }
 
 struct Slot {
@@ -724,9 +726,26 @@ impl<T: TypeConfig> Transport<T> for SimTransport<T> {
             let net = net.clone();
             let st = st.clone();
             tokio::spawn(async move {
+                let seed = net.inner.lock().unwrap().seed;
+                let mut n_req = 0u64;
                 while let Some((at, req)) = c2s_rx.recv().await {
+                    n_req += 1;
                     tokio::time::sleep_until(at).await;
                     if !stall_until_open(&net, &st, me, peer_id, keepalive).await {
+                        // The stream was reset while this request was in flight. If the link itself is up, the bytes
+                        // may already have reached the peer, which then still processes them - late, possibly after
+                        // requests of the leader's next stream, whose first request repeats these entries
+                        // (reordering and duplication across reconnects). The response goes nowhere.
+                        let through = !net.is_blocked(me, peer_id) && keyed(seed, &[me as u64, peer_id as u64, n_req, at.elapsed().as_millis() as u64 & 0, 0xAF]) % 2 == 0;
+                        if through {
+                            let extra = keyed(seed, &[me as u64, peer_id as u64, n_req, 0xB0]) % 60;
+                            tokio::time::sleep(Duration::from_millis(extra)).await;
+                            net.inner.lock().unwrap().stats.delivered_after_break += 1;
+                            if srv_in_tx.send(req).is_err() {
+                                break;
+                            }
+                            continue;
+                        }
                         break;
                     }
                     net.inner.lock().unwrap().stats.delivered += 1;
